@@ -13,7 +13,7 @@ RULE = ('models are generated as trees by the harness (recursive blocks, single-
         'get_children_of_type from the root and from inner objects (every contained object satisfying the selector exactly '
         'once, parents before children / after with children_first, pruning by random should_follow), get_parent_of_type = '
         'nearest ancestor. distinct = (tree shape, class variant); non-trivial = depth >= 3 and >= 10 objects')
-REQUIRED = {'user_classes_used_by_an_earlier_metamodel': 50, 'models': 200, 'objects_checked': 3000, 'get_children_calls': 1000, 'falsy_objects': 50, 'pruned_traversals': 200,
+REQUIRED = {'of_type_order_checks': 200, 'user_classes_used_by_an_earlier_metamodel': 50, 'models': 200, 'objects_checked': 3000, 'get_children_calls': 1000, 'falsy_objects': 50, 'pruned_traversals': 200,
             'parent_of_type_calls': 1000, 'inner_roots': 200}
 
 GRAMMARS = {
@@ -307,11 +307,26 @@ def one(ctx, i, rep=None):
                             return fail('get_children(children_first=%s): %s and its ancestor %s are in the wrong order' % (
                                 cf, n['name'], p['name']))
         for typ in ('Block', 'Leaf', 'Ref'):
-            ctx.count('get_children_calls')
-            got = get_children_of_type(typ, pair[id(start)])
-            exp = [n for n in all_nodes(start) if n['kind'] == typ]
-            if sorted(map(id, got)) != sorted(id(pair[id(n)]) for n in exp):
-                return fail('get_children_of_type(%s, %s) returned %d objects, expected %d' % (typ, start['name'], len(got), len(exp)))
+            for cf in (None, False, True):
+                ctx.count('get_children_calls')
+                kw = {} if cf is None else {'children_first': cf}
+                got = get_children_of_type(typ, pair[id(start)], **kw)
+                exp = [n for n in all_nodes(start) if n['kind'] == typ]
+                if sorted(map(id, got)) != sorted(id(pair[id(n)]) for n in exp):
+                    return fail('get_children_of_type(%s, %s) returned %d objects, expected %d' % (typ, start['name'], len(got), len(exp)))
+                by_obj2 = {id(pair[id(n)]): n for n in nodes}
+                gotn = [by_obj2[id(o)] for o in got]
+                pos = {id(n): k for k, n in enumerate(gotn)}
+                for n in gotn:
+                    p = parent_of.get(id(n))
+                    while p is not None and id(p) not in pos:
+                        p = parent_of.get(id(p))
+                    if p is not None and (pos[id(p)] < pos[id(n)]) == bool(cf):
+                        ctx.count('of_type_order_checks')
+                        return fail('get_children_of_type(%s, children_first=%s): %s and its ancestor %s of the same type are in the '
+                                    'wrong order' % (typ, cf, n['name'], p['name']))
+                    if p is not None:
+                        ctx.count('of_type_order_checks')
     for n in nodes:
         for typ in ('Block', 'Model', 'Leaf'):
             ctx.count('parent_of_type_calls')
